@@ -121,24 +121,47 @@ Section GroupTerm.
 
   (** options.try: a real match decreases the size, an environment-only match excludes one more
       listed option *)
+  Lemma try_consume_spec opts : forall excluded args rem bs,
+    try_consume D opts excluded args = Some (rem, bs) ->
+    exists o ro', In o opts /\ mem_nat o excluded = false /\ bs <> [] /\ m_opt D o args false = Some (rem, ro', bs).
+  Proof.
+    induction opts as [|o opts IH]; intros excluded args rem bs; cbn [try_consume]; [discriminate|].
+    destruct (mem_nat o excluded) eqn:Hm.
+    - intros H. destruct (IH _ _ _ _ H) as (o' & ro' & Hin & X). exists o', ro'. split; [now right | exact X].
+    - destruct (m_opt D o args false) as [[[rem0 ro0] [|b0 bs0]]|] eqn:Ho.
+      + intros H. destruct (IH _ _ _ _ H) as (o' & ro' & Hin & X). exists o', ro'. split; [now right | exact X].
+      + intros [= <- <-]. exists o, ro0. repeat split; auto; [now left | discriminate].
+      + intros H. destruct (IH _ _ _ _ H) as (o' & ro' & Hin & X). exists o', ro'. split; [now right | exact X].
+  Qed.
+
+  Lemma try_env_spec opts : forall excluded args o,
+    try_env D opts excluded args = Some o ->
+    In o opts /\ mem_nat o excluded = false /\ oi_fromenv D o = true /\
+    exists rem ro', m_opt D o args false = Some (rem, ro', []).
+  Proof.
+    induction opts as [|p opts IH]; intros excluded args o; cbn [try_env]; [discriminate|].
+    destruct (mem_nat p excluded) eqn:Hm.
+    - intros H. destruct (IH _ _ _ H) as (Hin & X). split; [now right | exact X].
+    - destruct (m_opt D p args false) as [[[rem0 ro0] [|b0 bs0]]|] eqn:Ho.
+      + destruct (oi_fromenv D p) eqn:He.
+        * intros [= <-]. repeat split; auto; [now left | eauto].
+        * intros H. destruct (IH _ _ _ H) as (Hin & X). split; [now right | exact X].
+      + intros H. destruct (IH _ _ _ H) as (Hin & X). split; [now right | exact X].
+      + intros H. destruct (IH _ _ _ H) as (Hin & X). split; [now right | exact X].
+  Qed.
+
   Lemma try_opts_progress opts : forall excluded args rem bs ex',
     try_opts D opts excluded args = Some (rem, bs, ex') ->
     (args_size rem < args_size args /\ ex' = excluded) \/
     (rem = args /\ bs = [] /\ exists o, In o opts /\ mem_nat o excluded = false /\ ex' = o :: excluded).
   Proof.
-    induction opts as [|o opts IH]; intros excluded args rem bs ex'; cbn [try_opts]; [discriminate|].
-    destruct (mem_nat o excluded) eqn:Hm.
-    - intros H. destruct (IH _ _ _ _ _ H) as [?|(-> & -> & o' & Hin & Hne & ->)]; [now left|].
-      right. repeat split; auto. exists o'. repeat split; auto. now right.
-    - destruct (m_opt D o args false) as [[[rem0 ro0] bs0]|] eqn:Ho.
-      + intros [= <- <- <-]. destruct (m_opt_progress _ _ _ _ _ _ _ Ho) as [_ [[-> ->]|[Hlt Hne]]].
-        * destruct (oi_fromenv D o) eqn:He.
-          -- right. repeat split; auto. exists o. repeat split; auto. now left.
-          -- unfold m_opt in Ho. rewrite He in Ho. destruct args as [|a args]; [discriminate|].
-             destruct (scan D o [] (a :: args)) as [[v r]|]; [|discriminate]. discriminate.
-        * left. split; [assumption|]. destruct bs0; [congruence | reflexivity].
-      + intros H. destruct (IH _ _ _ _ _ H) as [?|(-> & -> & o' & Hin & Hne & ->)]; [now left|].
-        right. repeat split; auto. exists o'. repeat split; auto. now right.
+    intros excluded args rem bs ex'. unfold try_opts.
+    destruct (try_consume D opts excluded args) as [[rem0 bs0]|] eqn:Hc.
+    - intros [= <- <- <-]. destruct (try_consume_spec _ _ _ _ _ Hc) as (o & ro' & Hin & Hm & Hne & Ho).
+      destruct (m_opt_progress _ _ _ _ _ _ _ Ho) as [_ [[-> ->]|[Hlt _]]]; [congruence|]. now left.
+    - destruct (try_env D opts excluded args) as [o|] eqn:He; [|discriminate].
+      intros [= <- <- <-]. destruct (try_env_spec _ _ _ _ He) as (Hin & Hm & _).
+      right. repeat split; auto. exists o. auto.
   Qed.
 
   (** number of listed options not yet excluded *)
